@@ -71,6 +71,23 @@ CLAIMED["C05"] = dict(
     technique="Lean 4 field identities + induction over bracketed context programs + exact state correspondence",
     ref="DESIGN.md §5 C05")
 
+CLAIMED["C04"] = dict(
+    text="Lean 4 proof over an arbitrary group of basis transformations acting on representations: for EVERY program of entering and "
+         "leaving (nested) eigenbasis_of contexts, creating, reading and writing managed objects — leaving through an exception runs the "
+         "same exit — each object satisfies 'representation = original transported to its basis level, registered exactly where exit "
+         "will find it' (theorem restore, induction over programs); hence whenever all contexts are left every object is in its original "
+         "representation with basis label 0 and an empty registry (restore_from_empty), every value read inside is the original "
+         "transported to the current basis (same basis for all objects), and traces / tr(AB) / products are basis independent "
+         "(conjugation action instance). The model is tied to Manager/eigenbasis_of/BasisManaged by exact comparison of the whole "
+         "bookkeeping (stack depth, registry per level, basis labels, protection flags, current basis operator, flags) after every "
+         "event of random programs and 1e-9 comparison of every value read; tensors, superoperators and Lindblad forms in nested "
+         "contexts with exceptions are covered by the oracle only. Partial: protected objects inside contexts are modelled but "
+         "excluded from the restoration theorem; the eigh contract (S orthogonal, diagonalising, ascending) is re-checked numerically.",
+    note="Lean kernel + standard axioms; hand model validated on generated programs; numpy.linalg.eigh / inv externals; exact group "
+         "inverses in the theorem vs floating inverses in the code ('up to rounding' observed at 1e-9).",
+    technique="Lean 4 invariant proof over operation programs (group action) + exact state correspondence",
+    ref="DESIGN.md §5 C04")
+
 NOT_APPLICABLE = {}
 
 
